@@ -67,6 +67,11 @@ type groupJ struct {
 	Got6  []int       `json:"got6"`
 }
 
+type targetJ struct {
+	Name  int         `json:"name"`
+	Cands [][3]uint64 `json:"cands"`
+}
+
 type caseJ struct {
 	Kind  string `json:"kind"`
 	Class string `json:"class"`
@@ -88,6 +93,12 @@ type caseJ struct {
 	DSeed  uint64   `json:"dseed,omitempty"`
 	Groups []groupJ `json:"groups,omitempty"`
 	Rcode  int      `json:"rcode"`
+	// e2e additional section
+	Msg     [][2]int  `json:"msg,omitempty"`     // (owner id, type) of answer ++ authority
+	Targets []targetJ `json:"targets,omitempty"` // NS/MX targets in processing order
+	Extra   [][3]int  `json:"extra,omitempty"`   // additional: (owner id, type, record id)
+	MsgIDs  []int     `json:"msgids,omitempty"`  // every record of the message; equal records get equal numbers
+	TC      bool      `json:"tc,omitempty"`
 	// chi
 	ChiW       []uint32               `json:"chi_w,omitempty"`
 	ChiObs     []int                  `json:"chi_obs,omitempty"`
@@ -525,6 +536,48 @@ func genData(seed uint64, tier string) *dataset {
 	add("mx3.example.com", 1, 3, 1)
 	add("mx3.example.com", 1, 3, 1)
 	add("mx3.example.com", 28, 1, 1)
+	// several MX records naming the same host: v4-only, v6-only, dual stack
+	add("v4only.example.com", 1, 0, 1)
+	add("v6only.example.com", 28, 0, 1)
+	add("dual.example.com", 1, 0, 2)
+	add("dual.example.com", 1, 0, 1)
+	add("dual.example.com", 28, 0, 1)
+	add("w4only.example.com", 1, 0, 3) // v4-only with several weighted candidates
+	add("w4only.example.com", 1, 0, 1)
+	add("w4only.example.com", 1, 0, 0)
+	decl("mma.example.com")
+	delete(d.names, "mma.example.com.")
+	decl("mmb.example.com")
+	delete(d.names, "mmb.example.com.")
+	dist := 0
+	mxs := func(owner, target string, n int) {
+		for i := 0; i < n; i++ {
+			dist += 5
+			fmt.Fprintf(&b, "@%s,,%s,%d,300\n", owner, target, dist)
+		}
+	}
+	mxs("mma.example.com", "v4only.example.com", 2)
+	mxs("mma.example.com", "v6only.example.com", 3)
+	mxs("mma.example.com", "dual.example.com", 2)
+	mxs("mmb.example.com", "v4only.example.com", 3)
+	mxs("mmb.example.com", "v6only.example.com", 2)
+	mxs("mmb.example.com", "dual.example.com", 3)
+	mxs("mmb.example.com", "w4only.example.com", 2)
+	// a name that is its own MX target and has addresses in one family only
+	decl("self.example.com")
+	add("self.example.com", 1, 0, 1)
+	add("self.example.com", 1, 0, 2)
+	mxs("self.example.com", "self.example.com", 1)
+	// delegations whose two NS records (different TTL) share one glue host
+	decl("www.sub4.example.com")
+	delete(d.names, "www.sub4.example.com.")
+	decl("www.sub6.example.com")
+	delete(d.names, "www.sub6.example.com.")
+	b.WriteString("&sub4.example.com,,gl.sub4.example.com,3600,,\n&sub4.example.com,,gl.sub4.example.com,3601,,\n")
+	b.WriteString("&sub6.example.com,,gl.sub6.example.com,3600,,\n&sub6.example.com,,gl.sub6.example.com,3601,,\n")
+	add("gl.sub4.example.com", 1, 0, 1)
+	add("gl.sub4.example.com", 1, 0, 4)
+	add("gl.sub6.example.com", 28, 0, 1)
 	decl("www.sub.example.com")
 	delete(d.names, "www.sub.example.com.")
 	for _, ns := range []string{"ns1.sub.example.com", "ns2.sub.example.com"} {
@@ -665,45 +718,79 @@ func (d *dataset) query(driver, qname string, qtype int, mode, client string, ma
 		c.Groups = []groupJ{g}
 		return c
 	}
-	// additional section: one group per NS/MX target of the answer / authority section
+	// additional section: the NS/MX records of the answer, then of the authority
+	// section, in the order AdditionalSectionForRecords walks them
+	c.TC = m.Truncated
+	nameID := map[string]int{}
+	nid := func(n string) int {
+		if v, ok := nameID[n]; ok {
+			return v
+		}
+		nameID[n] = len(nameID) + 1
+		return nameID[n]
+	}
+	recID := map[string]int{}
+	has := map[[2]string]bool{} // (owner, family) present in answer / authority
 	var targets []string
 	for _, sec := range [][]dns.RR{m.Answer, m.Ns} {
 		for _, rr := range sec {
+			c.Msg = append(c.Msg, [2]int{nid(rr.Header().Name), int(rr.Header().Rrtype)})
 			switch x := rr.(type) {
 			case *dns.NS:
 				targets = append(targets, x.Ns)
 			case *dns.MX:
 				targets = append(targets, x.Mx)
+			case *dns.A:
+				has[[2]string{x.Hdr.Name, "4"}] = true
+			case *dns.AAAA:
+				has[[2]string{x.Hdr.Name, "6"}] = true
 			}
+		}
+	}
+	for _, sec := range [][]dns.RR{m.Answer, m.Ns, m.Extra} {
+		for _, rr := range sec {
+			k := rr.String()
+			if _, ok := recID[k]; !ok {
+				recID[k] = len(recID) + 1
+			}
+			c.MsgIDs = append(c.MsgIDs, recID[k])
 		}
 	}
 	idx := map[string]int{}
 	for _, t := range targets {
+		c.Targets = append(c.Targets, targetJ{Name: nid(t), Cands: d.visible(t, loc)})
 		if _, dup := idx[t]; dup {
 			continue
 		}
 		idx[t] = len(c.Groups)
-		c.Groups = append(c.Groups, groupJ{Name: t, Max: 1, Want4: true, Want6: true, Cands: d.visible(t, loc), Got4: []int{}, Got6: []int{}})
+		c.Groups = append(c.Groups, groupJ{Name: t, Max: 1, Want4: !has[[2]string{t, "4"}], Want6: !has[[2]string{t, "6"}],
+			Cands: d.visible(t, loc), Got4: []int{}, Got6: []int{}})
 	}
 	for _, rr := range m.Extra {
 		name := rr.Header().Name
 		gi, ok := idx[name]
 		if !ok {
 			// an additional record for a name that is no target
+			c.Extra = append(c.Extra, [3]int{nid(name), int(rr.Header().Rrtype), 999995})
 			c.Groups = append(c.Groups, groupJ{Name: name, Max: 1, Want4: true, Want6: true, Cands: [][3]uint64{}, Got4: []int{999995}, Got6: []int{}})
 			continue
 		}
 		switch x := rr.(type) {
 		case *dns.A:
-			c.Groups[gi].Got4 = append(c.Groups[gi].Got4, d.idOf(name, loc, 1, x.A, x.Hdr.Ttl))
+			id := d.idOf(name, loc, 1, x.A, x.Hdr.Ttl)
+			c.Groups[gi].Got4 = append(c.Groups[gi].Got4, id)
+			c.Extra = append(c.Extra, [3]int{nid(name), 1, id})
 		case *dns.AAAA:
-			c.Groups[gi].Got6 = append(c.Groups[gi].Got6, d.idOf(name, loc, 28, x.AAAA, x.Hdr.Ttl))
+			id := d.idOf(name, loc, 28, x.AAAA, x.Hdr.Ttl)
+			c.Groups[gi].Got6 = append(c.Groups[gi].Got6, id)
+			c.Extra = append(c.Extra, [3]int{nid(name), 28, id})
 		default:
 			c.Groups[gi].Got4 = append(c.Groups[gi].Got4, 999997)
+			c.Extra = append(c.Extra, [3]int{nid(name), int(rr.Header().Rrtype), 999997})
 		}
 	}
-	if len(targets) == 0 {
-		c.Note = "no NS/MX target in the response"
+	if len(targets) == 0 || m.Truncated {
+		c.Note = "no NS/MX target in the response, or truncated"
 		c.Groups = append(c.Groups, groupJ{Name: "?", Max: 1, Want4: true, Want6: true, Cands: [][3]uint64{}, Got4: []int{999994}, Got6: []int{}})
 	}
 	return c
@@ -742,6 +829,20 @@ func emitE2E(a *hlib.Args, e *hlib.Emitter, d *dataset) {
 				e.Emit(d.query(drv, "example.com.", int(dns.TypeNS), "addl", cl.ip, max, a.Seed))
 				e.Emit(d.query(drv, "example.com.", int(dns.TypeMX), "addl", cl.ip, max, a.Seed))
 				e.Emit(d.query(drv, "www.sub.example.com.", int(dns.TypeA), "addl", cl.ip, max, a.Seed))
+			}
+		}
+		// targets named by several records / already present in the answer
+		for ci, cl := range clients {
+			if !thorough && ci%2 == 1 {
+				continue
+			}
+			for _, max := range []int{1, 4} {
+				e.Emit(d.query(drv, "mma.example.com.", int(dns.TypeMX), "addl", cl.ip, max, a.Seed))
+				e.Emit(d.query(drv, "mmb.example.com.", int(dns.TypeMX), "addl", cl.ip, max, a.Seed))
+				e.Emit(d.query(drv, "self.example.com.", int(dns.TypeMX), "addl", cl.ip, max, a.Seed))
+				e.Emit(d.query(drv, "self.example.com.", int(dns.TypeANY), "addl", cl.ip, max, a.Seed))
+				e.Emit(d.query(drv, "www.sub4.example.com.", int(dns.TypeA), "addl", cl.ip, max, a.Seed))
+				e.Emit(d.query(drv, "www.sub6.example.com.", int(dns.TypeAAAA), "addl", cl.ip, max, a.Seed))
 			}
 		}
 	}
